@@ -329,6 +329,17 @@ impl<F: PrimeField> PolyGlue<F> for MvPoly<F> {
             Shape::Dense | Shape::LowZeros(_) => {
                 let k = 2 + r.gen_range(0..(3 * d + 3));
                 let mut t = vec![(nz(&mut r), mono(&mut r, d))];
+                // genuinely mixed monomials with a higher power in one variable: X_a^(e) * X_b, a != b
+                if nv >= 2 && d >= 2 {
+                    for _ in 0..2 {
+                        let a = r.gen_range(0..nv);
+                        let b = (a + 1 + r.gen_range(0..nv - 1)) % nv;
+                        let e = r.gen_range(1..d);
+                        let mut term = vec![(a, e), (b, d - e)];
+                        term.sort();
+                        t.push((nz(&mut r), SparseTerm::new(term)));
+                    }
+                }
                 for _ in 0..k {
                     let deg = r.gen_range(0..=d);
                     t.push((F::rand(&mut r), mono(&mut r, deg)));
